@@ -208,11 +208,14 @@ func buildWorlds() []world {
 		event{Name: "c-handshake-other", Dir: 'c', Rec: tlsref.Record(22, 0x0303, tlsref.HandshakeMsg(11, tlsref.DetBytes("cert", 30)))},
 		event{Name: "c-alert", Dir: 'c', Rec: tlsref.Record(21, 0x0303, []byte{1, 0})},
 		event{Name: "c-appdata", Dir: 'c', Rec: tlsref.Record(23, 0x0303, tlsref.DetBytes("app", 40)), isApp: true},
+		// (an application-data record of length zero is one too: "once application-data records flow ...")
+		event{Name: "c-appdata-empty", Dir: 'c', Rec: tlsref.Record(23, 0x0303, nil), isApp: true},
 		event{Name: "b-ServerHello", Dir: 'b', Rec: echx.ServerHelloRecord(sid)},
 		event{Name: "b-HRR", Dir: 'b', Rec: echx.HRRRecord(sid), isHRR: true},
 		event{Name: "b-CCS", Dir: 'b', Rec: tlsref.Record(20, 0x0303, []byte{1})},
 		event{Name: "b-handshake-other", Dir: 'b', Rec: tlsref.Record(22, 0x0303, tlsref.HandshakeMsg(4, tlsref.DetBytes("nst", 30)))},
 		event{Name: "b-appdata", Dir: 'b', Rec: tlsref.Record(23, 0x0303, tlsref.DetBytes("sapp", 40)), isApp: true},
+		event{Name: "b-appdata-empty", Dir: 'b', Rec: tlsref.Record(23, 0x0303, nil), isApp: true},
 		// one Write call that carries an application-data record FOLLOWED by a HelloRetryRequest: once application data flows the
 		// stream is no longer interpreted, so what follows in the same buffer must not arm anything
 		event{Name: "b-appdata+HRR-in-one-write", Dir: 'b', Rec: append(tlsref.Record(23, 0x0303, tlsref.DetBytes("sapp2", 17)), echx.HRRRecord(sid)...), isApp: true},
@@ -355,7 +358,7 @@ func Run(r *ev.Run) {
 	if r.Thorough() {
 		depth = 5
 	}
-	r.Rule(fmt.Sprintf("E4: explicit-state model of the retry protocol (state = accepted, read/write pass-through, armed-by-HRR, retried, dead); alphabet of 26 events (whole records; one backend event is two records in one Write): client {valid retried hello, hello sealed at seq 0, hello without ECH, hello without ECH that does not offer TLS 1.3 either, other config id, other suite, non-empty enc, corrupt payload, inner SNI changed, inner SNI changed in letter case only, outer SNI changed / absent (sealed consistently), inner ALPN reordered, inner ALPN dropped, CCS, other handshake, alert, application data}, backend {ServerHello, HelloRetryRequest, CCS, other handshake, application data, application data + HelloRetryRequest in one Write}; EVERY history of length %d (hence every shorter one as a prefix) x 3 first-hello situations {accepted, keys but not accepted, no keys} is replayed on a fresh real Conn and compared with the model after every event (bytes delivered, error class, alert bytes, close). plus (sub-run on the instrumented sources, engine E3) the same protocol with Read and Write running concurrently: see evidence key interleavings. distinct = distinct (world, history)", depth))
+	r.Rule(fmt.Sprintf("E4: explicit-state model of the retry protocol (state = accepted, read/write pass-through, armed-by-HRR, retried, dead); alphabet of 28 events (whole records; one backend event is two records in one Write): client {valid retried hello, hello sealed at seq 0, hello without ECH, hello without ECH that does not offer TLS 1.3 either, other config id, other suite, non-empty enc, corrupt payload, inner SNI changed, inner SNI changed in letter case only, outer SNI changed / absent (sealed consistently), inner ALPN reordered, inner ALPN dropped, CCS, other handshake, alert, application data, an application-data record of length zero}, backend {ServerHello, HelloRetryRequest, CCS, other handshake, application data, an application-data record of length zero, application data + HelloRetryRequest in one Write}; EVERY history of length %d (hence every shorter one as a prefix) x 3 first-hello situations {accepted, keys but not accepted, no keys} is replayed on a fresh real Conn and compared with the model after every event (bytes delivered, error class, alert bytes, close). plus (sub-run on the instrumented sources, engine E3) the same protocol with Read and Write running concurrently: see evidence key interleavings. distinct = distinct (world, history)", depth))
 	r.Assume("model written from the property statement; reference sender validated against crypto/tls (C03)", "events are whole records; fragmentation is C07's subject")
 	worlds := buildWorlds()
 	nev := len(worlds[0].events)
